@@ -84,6 +84,21 @@ class Gen:
             fs = sc.of_type("fn1")
             f = r.choice(fs) if fs else "(q => q * 2)"
             return "(%s into %s)" % (self.num(sc, d - 1), f)
+        if r.chance(1, 3):
+            self.note("textfn")
+            k2 = r.below(5)
+            if k2 == 0:
+                return "round(%s)" % self.num(sc, d - 1)
+            if k2 == 1:
+                return "round(%s, %s)" % (self.num(sc, d - 1), r.choice(["0", "1", "2", "-1", "3", "15", "400"]))
+            if k2 == 2:
+                return "to_number(%s)" % r.choice(['"12"', '"1e3"', '"-0.5"', '"abc"', "true", '"inf"', '" 1"', '".5"',
+                                                     "to_string(%s)" % self.num(sc, d - 1)])
+            if k2 == 3:
+                u = r.choice([("km", "m"), ("m", "km"), ("celsius", "fahrenheit"), ("hours", "minutes"), ("kg", "lb"),
+                              ("km", "kg"), ("MB", "kB"), ("nosuch", "m"), ("mi", "ft"), ("K", "C")])
+                return 'convert(%s, "%s", "%s")' % (self.num(sc, d - 1), u[0], u[1])
+            return "len(join(%s, %s))" % (self.numlist(sc, d - 1), r.choice(['", "', '""', '"-"']))
         if r.chance(1, 2):
             self.note("aggregate")
             return "%s(%s)" % (r.choice(["len", "sum", "min", "max", "avg", "median", "prod"]), self.numlist(sc, d - 1))
@@ -115,7 +130,13 @@ class Gen:
     def string(self, sc, d):
         r = self.r
         vs = sc.of_type("str")
-        k = r.below(5 if d > 0 else 2)
+        k = r.below(7 if d > 0 else 2)
+        if k == 5:
+            self.note("to_string")
+            return "to_string(%s)" % self.anyexpr(sc, d - 1)
+        if k == 6:
+            self.note("join")
+            return "join(%s, %s)" % (self.numlist(sc, d - 1), r.choice(['", "', '""', '" | "']))
         if k == 0:
             return r.choice(STRS)
         if k == 1:
